@@ -165,10 +165,12 @@ def gen(rng, tier):
     cases = sc.scenario_cases()
     if tier == "quick":
         cases += gen_param_grid(rng, "grid-", 16)
+        cases += sc.directed_cases(rng, 1200)
         cases += [sc.gen_case(rng, "r%d" % i) for i in range(3000)]
         cases += [sc.gen_case(rng, "s%d" % i, hostile=0.05, nops=rng.randint(10, 40)) for i in range(1500)]
     else:
         cases += gen_param_grid(rng, "grid-", 1)
+        cases += sc.directed_cases(rng, 20000)
         cases += [sc.gen_case(rng, "r%d" % i) for i in range(50000)]
         cases += [sc.gen_case(rng, "s%d" % i, hostile=0.05, nops=rng.randint(10, 60)) for i in range(30000)]
     return cases
